@@ -978,29 +978,17 @@ func c08R4(c *Ctx) {
 		c.analysed(fnName(fn))
 		fs := computeFacts(fn)
 		timeoutF := p.Field(h.rel, strings.Split(h.name, ".")[0], "timeout")
-		var serve *ssa.Call
+		var serves []*ssa.Call
 		allInstrs(fn, func(i ssa.Instruction) {
 			if cl, ok := i.(*ssa.Call); ok && commonName(&cl.Call) == "(*net/http/httputil.ReverseProxy).ServeHTTP" {
-				serve = cl
+				serves = append(serves, cl)
 			}
 		})
-		if serve == nil || timeoutF == nil {
+		if len(serves) == 0 || timeoutF == nil {
 			c.fail("C08.R4", fnName(fn)+"/serve", fn.Pos(), "no ReverseProxy.ServeHTTP call / timeout field")
 			continue
 		}
-		// strip WithContext(WithValue...) wrappers down to a phi or WithContext(WithTimeout)
-		req := serve.Call.Args[2]
-		for {
-			cl, ok := req.(*ssa.Call)
-			if !ok || commonName(&cl.Call) != "(*net/http.Request).WithContext" {
-				break
-			}
-			if wv, ok := cl.Call.Args[1].(*ssa.Call); ok && commonName(&wv.Call) == "context.WithValue" {
-				req = cl.Call.Args[0]
-				continue
-			}
-			break
-		}
+		serve := serves[0]
 		hasTimeout := func(facts []Fact, want bool) bool {
 			return anyFact(facts, func(f Fact) bool {
 				op := token.NEQ
@@ -1034,15 +1022,42 @@ func c08R4(c *Ctx) {
 				return false
 			})
 		}
-		ph, ok := req.(*ssa.Phi)
-		if !ok {
-			c.fail("C08.R4", fnName(fn)+"/timeout-selection", serve.Pos(), "the proxied request is not selected between the plain request and one with a timeout context: "+path(req))
-			continue
+		// every request handed to the reverse proxy, with the facts under which it is handed over: the inputs
+		// of a phi by edge, a direct value by the alternatives of its block (guards merged with || leave no
+		// single dominating fact)
+		type reqAlt struct {
+			v     ssa.Value
+			facts []Fact
+		}
+		var alts []reqAlt
+		for _, sv := range serves {
+			// strip WithContext(WithValue...) wrappers down to a phi or WithContext(WithTimeout)
+			req := sv.Call.Args[2]
+			for {
+				cl, ok := req.(*ssa.Call)
+				if !ok || commonName(&cl.Call) != "(*net/http.Request).WithContext" {
+					break
+				}
+				if wv, ok := cl.Call.Args[1].(*ssa.Call); ok && commonName(&wv.Call) == "context.WithValue" {
+					req = cl.Call.Args[0]
+					continue
+				}
+				break
+			}
+			if ph, ok := req.(*ssa.Phi); ok {
+				for k, e := range ph.Edges {
+					alts = append(alts, reqAlt{e, fs.OnEdge(ph.Block().Preds[k], ph.Block())})
+				}
+				continue
+			}
+			for _, fa := range factAlternatives(fs, sv.Block(), 3) {
+				alts = append(alts, reqAlt{req, fa})
+			}
 		}
 		bad := ""
 		nT := 0
-		for k, e := range ph.Edges {
-			facts := fs.OnEdge(ph.Block().Preds[k], ph.Block())
+		for _, ra := range alts {
+			e, facts := ra.v, ra.facts
 			if _, isParam := strip(e).(*ssa.Parameter); isParam {
 				if !(hasTimeout(facts, false) || upgrade(facts, true)) {
 					bad = "the request is proxied without a timeout although one is configured and it is not a WebSocket upgrade; facts " + factStrings(facts)
@@ -1074,7 +1089,7 @@ func c08R4(c *Ctx) {
 				bad = "the timeout context is not WithTimeout(r.Context(), p.timeout) with deferred cancel under exactly {timeout configured, not a WebSocket upgrade}; facts " + factStrings(facts)
 			}
 		}
-		c.check(bad == "" && nT == 1, "C08.R4", fnName(fn)+"/timeout-selection", serve.Pos(), "timeout context exactly when configured and not a WebSocket upgrade", bad)
+		c.check(bad == "" && nT >= 1, "C08.R4", fnName(fn)+"/timeout-selection", serve.Pos(), "timeout context exactly when configured and not a WebSocket upgrade", bad)
 	}
 }
 
